@@ -689,6 +689,9 @@ func c17(c *Ctx) {
 			})
 		}
 		r.Stat("arm64_decode_consumers", n)
+		inBC := func(rel string) bool { return rel == "internal/bytecode" }
+		checkErrorPolarity(k2, r, "C17.R5", inBC)
+		checkNoDeadComparisons(k2, r, "C17.R5", inBC)
 		if nt := checkCallTargetArithmetic(k2, r, "C17.R5"); nt == 0 {
 			r.Und("C17.R5", "branch target arithmetic", "", "no arm64 scanner computes an address from a decoded displacement")
 		}
